@@ -140,6 +140,71 @@ def ops : List (String × Op) := [
         else if decide (normDict result = unionDict own other) then pure "fail operand-changed"
         else pure "fail result"
       | _ => do let _ ← pRestToks; pure "fail raised"),
+  ("export", do
+      let own ← pQDict; let other ← pQDict; let ids ← pList (do let k ← pNat; let v ← pNat; pure (k, v)); pArrow
+      match (← tok) with
+      | "ok" => do
+        let result ← pQDict; let ownAfter ← pQDict; let otherAfter ← pQDict
+        if okExport own other ids result ownAfter otherAfter then pure "pass"
+        else if decide (normDict otherAfter ≠ normDict other) then pure "fail argument-changed"
+        else if decide (normDict ownAfter ≠ normDict own) then pure "fail operand-changed"
+        else pure "fail result"
+      | _ => do let _ ← pRestToks; pure "fail raised"),
+  -- warm <km> <seed> <who> <op>… => ok <n> (<op> <cold> <warm>){n} snap <pristine> <cold> <warm> …
+  ("warm", do
+      pSkipToArrow
+      match (← tok) with
+      | "ok" => do
+        let answers ← pList (do let o ← tok; let c ← tok; let w ← tok; pure (o, c, w))
+        match (← tok) with
+        | "snap" => do
+          let p ← tok; let c ← tok; let w ← tok; let _ ← pRestToks
+          if okWarm answers p c w then pure "pass"
+          else match firstWarmDiff answers with
+            | some op => pure s!"fail result-answers-depend-on-operand-history {op}"
+            | none => pure (if c != p then "fail operand-changed cold" else "fail operand-changed warm")
+        | t => do let _ ← pRestToks; pure s!"fail snap? {t}"
+      | _ => do let r ← pRestToks; pure ("fail raised " ++ " ".intercalate (r.take 2))),
+  -- args … => ok fam=<f> a <before> <after> s <before> <after> r <first> <second> <twin> alias <n> <path>… …
+  ("args", do
+      pSkipToArrow
+      match (← tok) with
+      | "ok" => do
+        let _fam ← tok
+        let ta ← tok; let ab ← tok; let aa ← tok
+        let ts ← tok; let sb ← tok; let sa ← tok
+        let tr ← tok; let r1 ← tok; let r2 ← tok; let rt ← tok
+        let tl ← tok
+        if ta != "a" || ts != "s" || tr != "r" || tl != "alias" then do let _ ← pRestToks; pure "fail format?"
+        else do
+          let n ← pNat
+          let rest ← pRestToks
+          let aliases := if n = 0 then [] else rest.takeWhile (· != "?")
+          if n != 0 && aliases.isEmpty then pure "fail format? alias"
+          else if okArgs ab aa sb sa r1 r2 rt aliases then pure "pass"
+          else if ab != aa then pure "fail argument-changed"
+          else if sb != sa then pure "fail receiver-changed"
+          else if !aliases.isEmpty then pure s!"fail result-shares-container {" ".intercalate (aliases.take 2)}"
+          else if r1 != r2 then pure "fail second-call-differs"
+          else pure "fail fresh-twin-differs"
+      | _ => do let r ← pRestToks; pure ("fail raised " ++ " ".intercalate (r.take 2))),
+  -- lazy … => ok e1 <n:d> l2 <n:d> e3 <n:d> lt <n:d> et <n:d> …
+  ("lazy", do
+      pSkipToArrow
+      match (← tok) with
+      | "ok" => do
+        let rest ← pRestToks
+        let body := rest.takeWhile (· != "?")
+        let rec pairs : List String → List (String × String)
+          | a :: b :: more => (a, b) :: pairs more
+          | _ => []
+        let rs := pairs body
+        if rs.length != 5 || body.length != 10 then pure "fail format?"
+        else if okLazy rs then pure "pass"
+        else match firstLazyDiff rs with
+          | some l => pure s!"fail rendering-differs {l}"
+          | none => pure "fail rendering-differs"
+      | _ => do let r ← pRestToks; pure ("fail raised " ++ " ".intercalate (r.take 2))),
   ("hist", do
       pSkipToArrow
       match (← tok) with
